@@ -15,6 +15,11 @@ use tokio::sync::{mpsc, oneshot};
 #[derive(Clone, Debug, Serialize, Deserialize, PartialEq)]
 pub enum M {
 	Subscribe { b: bool },
+	/// subscribe through the raw registration (`sub_r`): the handler runs in its own task
+	SubscribeRaw,
+	/// the caller gives up on the subscribe call of instance k before the handler decided (only raw instances:
+	/// their handler lives on and may still try to accept)
+	AbandonCall { inst: u16 },
 	Act { inst: u16, cmd: Cmd },
 	/// drop the receiver of instance k: its connection is gone
 	CloseConn { inst: u16 },
@@ -28,6 +33,8 @@ pub struct ModCase {
 }
 
 struct MInst {
+	raw: bool,
+	abandoned: bool,
 	b: bool,
 	sub_id: Option<Value>,
 	accepted: bool,
@@ -69,7 +76,7 @@ impl SubCheck for ModuleLevel {
 	fn run(&self, case: &ModCase, obs: &mut Obs) {
 		let rt = rt();
 		rt.block_on(async {
-			let ctx = Arc::new(HCtx { log: Mutex::new(vec![]), gates: Gates::default(), actors: Mutex::new(vec![]), guard_seen: Mutex::new(vec![]) });
+			let ctx = Arc::new(HCtx { log: Mutex::new(vec![]), gates: Gates::default(), actors: Mutex::new(vec![]), guard_seen: Mutex::new(vec![]), sub_ids: Default::default() });
 			let methods: jsonrpsee_server::Methods = build_module(ctx.clone()).into();
 			let mut insts: Vec<MInst> = vec![];
 			let mut req = 0u32;
@@ -77,14 +84,16 @@ impl SubCheck for ModuleLevel {
 			let mut n_false = 0;
 			for (k, step) in case.steps.iter().enumerate() {
 				match step {
-					M::Subscribe { b } => {
+					M::Subscribe { .. } | M::SubscribeRaw => {
+						let raw = matches!(step, M::SubscribeRaw);
+						let b = &matches!(step, M::Subscribe { b: true });
 						req += 1;
 						let m = methods.clone();
-						let text = json!({"jsonrpc":"2.0","id":req,"method": if *b { "sub_b" } else { "sub_a" }}).to_string();
+						let text = json!({"jsonrpc":"2.0","id":req,"method": if raw { "sub_r" } else if *b { "sub_b" } else { "sub_a" }}).to_string();
 						// the call only returns once the handler accepted / rejected: run it as a task
 						let h = tokio::spawn(async move { m.raw_json_request(&text, 64).await.ok().map(|(r, rx)| (r.get().to_string(), rx)) });
 						settle().await;
-						insts.push(MInst { b: *b, sub_id: None, accepted: false, sinks_live: 0, returned: false, unsubscribed: false, conn_open: true, rx: None, pending_call: Some(h) });
+						insts.push(MInst { raw, abandoned: false, b: *b, sub_id: None, accepted: false, sinks_live: 0, returned: false, unsubscribed: false, conn_open: true, rx: None, pending_call: Some(h) });
 					}
 					M::Act { inst, cmd } => {
 						if insts.is_empty() {
@@ -130,6 +139,26 @@ impl SubCheck for ModuleLevel {
 							}
 						}
 					}
+					M::AbandonCall { inst } => {
+						if insts.is_empty() {
+							continue;
+						}
+						let i = pick_idx(*inst, insts.len());
+						let x = &mut insts[i];
+						if x.raw && !x.accepted && !x.returned {
+							if let Some(h) = x.pending_call.take() {
+								if !h.is_finished() {
+									h.abort();
+									x.abandoned = true;
+									x.conn_open = false;
+									classes.insert("subscribe-call-given-up-before-the-handler-decided");
+									settle().await;
+								} else {
+									x.pending_call = Some(h);
+								}
+							}
+						}
+					}
 					M::CloseConn { inst } => {
 						if insts.is_empty() {
 							continue;
@@ -147,13 +176,19 @@ impl SubCheck for ModuleLevel {
 								let i = pick_idx(*inst, insts.len());
 								match &insts[i].sub_id {
 									Some(id) => (id.clone(), insts[i].b ^ *other_family, Some(i)),
+									// the id a given-up call would have got (read from its pending sink): nobody was ever told it
+									None if insts[i].abandoned => match ctx.sub_ids.lock().get(i).cloned() {
+										Some(id) => (id, false, Some(i)),
+										None => (json!(31337), false, None),
+									},
 									None => (json!(31337), *other_family, None),
 								}
 							}
 							_ => (json!(31337), false, None),
 						};
 						req += 1;
-						let text = json!({"jsonrpc":"2.0","id":req,"method": if fam_b { "unsub_b" } else { "unsub_a" },"params":[x]}).to_string();
+						let raw_target = target.is_some_and(|i| insts[i].raw);
+						let text = json!({"jsonrpc":"2.0","id":req,"method": if raw_target { "unsub_r" } else if fam_b { "unsub_b" } else { "unsub_a" },"params":[x]}).to_string();
 						let reply = methods.raw_json_request(&text, 4).await.ok().map(|(r, _)| serde_json::from_str::<Value>(r.get()).unwrap_or(Value::Null));
 						let got = reply.as_ref().and_then(|r| r["result"].as_bool());
 						// active: accepted, not unsubscribed, the handler still holds a sink (the module-level API has no notion
@@ -164,7 +199,7 @@ impl SubCheck for ModuleLevel {
 						});
 						if got != Some(want) {
 							let t = target.map(|i| (insts[i].accepted, insts[i].unsubscribed, insts[i].sinks_live, insts[i].returned, insts[i].conn_open));
-							let sig = if !want && target.is_some_and(|i| !insts[i].conn_open) { "c06m/unsubscribe-true-after-connection-and-handler-gone" } else if want { "c06m/unsubscribe-of-active-subscription-false" } else { "c06m/unsubscribe-true-for-inactive-subscription" };
+							let sig = if !want && target.is_some_and(|i| insts[i].abandoned) { "c06m/unsubscribe-true-for-a-subscription-that-was-never-established" } else if !want && target.is_some_and(|i| !insts[i].conn_open) { "c06m/unsubscribe-true-after-connection-and-handler-gone" } else if want { "c06m/unsubscribe-of-active-subscription-false" } else { "c06m/unsubscribe-true-for-inactive-subscription" };
 							obs.fail(sig, format!("step #{k} {step:?}: unsubscribe({x}) answered {reply:?}, model says {want}; target (accepted, unsubscribed, sinks, returned, conn_open) = {t:?}; case={case:?}"));
 						}
 						if got == Some(false) {
